@@ -11,13 +11,14 @@ mod c06;
 mod c07;
 mod c08;
 mod c09;
+mod c10;
 
 use serde_json::{Value, json};
 use std::time::Instant;
 use util::*;
 
 fn props() -> Vec<PropDef> {
-    vec![c02::DEF, c03::DEF, c04::DEF, c05::DEF, c06::DEF, c07::DEF, c08::DEF, c09::DEF]
+    vec![c02::DEF, c03::DEF, c04::DEF, c05::DEF, c06::DEF, c07::DEF, c08::DEF, c09::DEF, c10::DEF]
 }
 
 fn arg(args: &[String], name: &str) -> Option<String> {
